@@ -1014,7 +1014,11 @@ package server
 //@   ghost valueFor[ref(lock)] = ghost.recordNo[ref(self)]
 //@   modifies AofFile.drbuf@self, AofLock.data@lock, E_byte
 
+// a record is left out of a load only when its deadline (record time + lifetime in its unit) has passed; a
+// seconds record with lifetime 0 carries no deadline and is never left out
+//@ spec func recordExpired(l, now) = ite(l.ExpriedFlag&0x0400 != 0, l.CommandTime + l.ExpriedTime/1000 <= now, ite(l.ExpriedFlag&0x0040 != 0, l.CommandTime + l.ExpriedTime*60 <= now, l.ExpriedFlag&0x4000 == 0 && l.ExpriedTime > 0 && l.CommandTime + l.ExpriedTime <= now))
 //@ func (*Aof).LoadAofFile
+//@   loop#1 backedge C07.load.skip-only-expired: implies(lock.CommandTime < 0x10000000000 && !recordExpired(lock, expriedTime), calls(iterFunc) >= 1)
 //@   requires self != nil && lock != nil && len(lock.buf) == 64
 //@   loop#1 invariant aofFile != nil && lock != nil && len(lock.buf) == 64 && (ghost.recordNo[ref(aofFile)] == old(ghost.recordNo)[ref(aofFile)] || implies(lock.AofFlag&0x2000 != 0, ghost.valueFor[ref(lock)] == ghost.recordNo[ref(aofFile)]))
 //@   at call iterFunc after assume lock.AofFlag == before(lock.AofFlag) && lock.buf == before(lock.buf) && ghost.recordNo[ref(aofFile)] == before(ghost.recordNo)[ref(aofFile)] && ghost.valueFor[ref(lock)] == before(ghost.valueFor)[ref(lock)]
@@ -1284,3 +1288,17 @@ package server
 //@   loop#2 backedge C10.role.under-locks: db.status != state
 //@   loop#3 entry C10.role.switched: db.status == state
 //@   modifies all
+
+// C05/C06: a per-deadline long-wait table handed out by the pool is keyed by the requested deadline and empty,
+// whether it is new or recycled
+//@ func (*LongWaitLockFreeQueue).GetLongWaitLockQueue
+//@   requires self != nil
+//@   ensures C05.longtable.keyed,C06.longtable.keyed: result != nil && result.lockTime == lockExpriedTime && result.lockCount == 0 && result.freeCount == 0
+//@   modifies LongWaitLockFreeQueue.*, LongWaitLockQueue.*, E_Pserver_LongWaitLockQueue
+
+// C08: an append file that ends inside (or before) its 12-byte header reports the reader's own error (end of
+// file), which the loader treats as the end of the log, not a format error that refuses the start
+//@ func (*AofFile).ReadHeader
+//@   requires self != nil
+//@   ensures C08.header.eof: implies(!isnil(err), result == err)
+//@   modifies AofFile.size@self, E_byte
